@@ -80,7 +80,8 @@ THEOREMS = [
      "stream_spec ex_file (ex_get (B \"bytes=10-12\")) = S416"),
 ]
 RULE = ("(1) direct calls of kvarn_utils::parse::sanitize_request + CriticalRequestComponents::apply_to_response (both arithmetic "
-        "profiles: overflow checks on / off) against the Coq model (correspondence) and the Coq specification (oracle). "
+        "profiles: overflow checks on / off) against the Coq model (correspondence), the Coq specification (oracle) and a second statement of the property written in "
+        "Python without the Coq development (py_range_reply: header syntax by a regular expression, slice, content-range text). "
         "Exhaustive: body lengths 0..12 x all (a,b) in 0..14; boundary values around 2^32, 2^63, 2^64 for a and b; syntactic variants "
         "(units, lists, suffix/open ranges, signs, spaces, leading zeros, non-ASCII); seeded random mutations of valid headers; "
         "statuses 204/206/304/404/500 against the model. "
@@ -533,8 +534,46 @@ def compare(c, i, m):
     return False
 
 
+_RANGE_RE = None
+
+
+def py_range_reply(hdr, bd):
+    """The property, written down once more without the Coq development: (status, content-range, body) or 416."""
+    global _RANGE_RE
+    import re
+    if _RANGE_RE is None:
+        _RANGE_RE = re.compile(rb"\Abytes=(\+?[0-9]+)-(\+?[0-9]+)\Z")
+    m = _RANGE_RE.match(hdr) if hdr is not None else None
+    if m:
+        a, b_ = int(m.group(1)), int(m.group(2))
+        if a < 2**64 and b_ < 2**64:
+            if a <= b_ and a < len(bd):
+                last = min(b_, len(bd) - 1)
+                return (206, b"bytes %d-%d/%d" % (a, last, len(bd)), bd[a:last + 1])
+            return 416
+    return (200, None, bd)
+
+
 def extra_oracle(c, i):
-    """The representations in a connection case are what they claim to be: encodings of the page's body."""
+    """range.serve: a second, independent statement of the property (Python) on the implementation's output.
+    range.conn: the representations are what they claim to be: encodings of the page's body."""
+    if c.comp == "range.serve":
+        if c.x[1][2][1] != 200 or i.startswith("(L (N 9"):
+            return None
+        hdr = c.x[1][1][1][0][1] if c.x[1][1][1] else None
+        want = py_range_reply(hdr, c.x[1][3][1])
+        t, v = kv.xparse(i)
+        got = None
+        if t == "L" and len(v) == 2 and v[0] == ("N", 0) and v[1][0] == "L":
+            r = v[1][1]
+            if len(r) == 1 and r[0] == ("N", 416):
+                got = 416
+            elif len(r) == 4:
+                got = (r[0][1], (r[1][1][0][1] if r[1][1] else None), r[3][1])
+        if got != want:
+            return "independent statement of the property (driver/props/c09.py py_range_reply) expects %r, the implementation answered %r" % (
+                want if want == 416 else (want[0], want[1], want[2][:40]), got if got == 416 or got is None else (got[0], got[1], got[2][:40]))
+        return None
     if c.comp != "range.conn":
         return None
     if c.meta.get("bad_repr"):
